@@ -39,7 +39,7 @@ struct bn_call {
 	bn_val_t a, b, m;	/* mod_exp: base, exponent, modulus; mod_mul: factors, modulus */
 	bn_val_t out;		/* fresh result, < m */
 };
-#define BN_LOGN 4
+#define BN_LOGN 3
 
 struct bn_state {
 	size_t ncalls;			/* abstract operations logged so far */
